@@ -437,9 +437,104 @@ def case_helper(ctx, res, p):
                         detail={"max_abs_dev": float(np.max(np.abs(fa - fb)))}, signature=f"C18:helper-differs:{est}")
 
 
+def case_glue(ctx, res, p):
+    """Every intermediate an estimator computes in prepare_inference is what the documented helper function of
+    mellon.parameters returns for the estimator's other attributes - so that helper-made intermediates can be handed to a
+    fresh model (and the other way round).  Recomputed here from the helpers, attribute by attribute."""
+    m = mellon()
+    import jax.numpy as jnp
+    import importlib
+    P = importlib.import_module("mellon.parameters")
+    from mellon.validation import validate_nn_distances
+    rng = np.random.default_rng(int(p["dseed"]))
+    est, cfg = p["est"], p["cfg"]
+    n = 16
+    X = rng.normal(size=(n, 2)) * np.exp(rng.uniform(-1, 1))
+    for _ in range(int(p.get("dups", 0))):
+        i, j = rng.choice(n, size=2, replace=False)
+        X[i] = X[j]
+    kw = {}
+    if est == "T":
+        X = np.c_[X, rng.permutation(np.repeat([0.0, 1.0, 2.5], [5, 6, 5]))]      # unsorted, unequal time points
+        kw.update(ls_time=1.3, normalize_per_time_point=cfg.get("normalize", False))
+    if cfg.get("landmarks"):
+        idx = rng.permutation(n)[:6]
+        kw["landmarks"] = jnp.asarray(X[idx] + 0.05)
+    else:
+        kw["n_landmarks"] = 0
+    if cfg.get("gp_type"):
+        kw["gp_type"] = cfg["gp_type"]
+    if cfg.get("rank") is not None:
+        kw["rank"] = cfg["rank"]
+    if cfg.get("ls_factor") is not None:
+        kw["ls_factor"] = cfg["ls_factor"]
+    if est == "M":
+        kw["k"] = 5
+    Xj = jnp.asarray(X)
+    res.case(("glue", est, repr(sorted(cfg.items())), p["dseed"], p.get("dups", 0)), True, {"op": "glue", "est": est, "cfg": cfg})
+    res.count("glue:est=" + est)
+    with warnings.catch_warnings():
+        warnings.simplefilter("ignore")
+        e = make(est, kw)
+        try:
+            e.prepare_inference(Xj)
+        except ValueError as ex:
+            # a clean refusal (e.g. duplicate cells make the kernel matrix numerically singular): property C20's business
+            res.count("glue:refused")
+            res.notes.append(f"glue case refused by prepare_inference: {str(ex)[:80]}")
+            return
+        except Exception as ex:  # noqa
+            res.oracle_fail(f"prepare_inference raised {type(ex).__name__}", p, detail={"error": str(ex)[:200]},
+                            signature=f"C18:glue-raises:{est}")
+            return
+        exp = {}
+        if est == "D":
+            exp["nn_distances"] = validate_nn_distances(P.compute_nn_distances(Xj))
+            exp["d"] = P.compute_d(Xj)
+            exp["mu"] = P.compute_mu(exp["nn_distances"], exp["d"])
+            exp["ls"] = P.compute_ls(exp["nn_distances"]) * e.ls_factor
+            cov = P.compute_cov_func(e.cov_func_curry, exp["ls"])
+        elif est == "T":
+            nz = kw["normalize_per_time_point"]
+            exp["d"] = P.compute_d(Xj[:, :-1])
+            exp["nn_distances"] = validate_nn_distances(P.compute_nn_distances_within_time_points(Xj, d=exp["d"], normalize=nz))
+            exp["mu"] = P.compute_mu(exp["nn_distances"], exp["d"])
+            raw = P.compute_nn_distances_within_time_points(Xj, normalize=False) if nz else exp["nn_distances"]
+            exp["ls"] = P.compute_ls(raw) * e.ls_factor
+            cov = P.compute_cov_func(e.cov_func_curry, exp["ls"], e.ls_time)
+        else:
+            exp["distances"] = P.compute_distances(Xj, k=5)
+            exp["nn_distances"] = exp["distances"][:, 0]
+            exp["ls"] = P.compute_ls(exp["nn_distances"]) * e.ls_factor
+            cov = P.compute_cov_func(e.cov_func_curry, exp["ls"])
+        exp["cov_func(x,x)"] = cov(Xj, Xj)
+        got_cov = e.cov_func(Xj, Xj)
+        exp["Lp"] = P.compute_Lp(Xj, e.cov_func, e.gp_type, e.landmarks, sigma=0, jitter=e.jitter)
+        exp["L"] = P.compute_L(Xj, e.cov_func, e.gp_type, landmarks=e.landmarks, Lp=e.Lp, rank=e.rank, jitter=e.jitter)
+        if est != "M":
+            exp["initial_value"] = P.compute_initial_value(e.nn_distances, e.d, e.mu, e.L)
+    for name, want in exp.items():
+        got = got_cov if name == "cov_func(x,x)" else getattr(e, "mu_dens" if (est == "M" and name == "mu") else name)
+        if want is None or got is None:
+            ok, dev = (want is None) == (got is None), float("inf")
+        else:
+            a, b = np.asarray(got, float), np.asarray(want, float)
+            ok = a.shape == b.shape
+            dev = float(np.max(np.abs(a - b)) / max(np.max(np.abs(b)), 1e-300)) if ok and a.size else (0.0 if ok else float("inf"))
+            # Nystroem factors are fixed up to the sign of each eigenvector: compare L L^T there
+            if ok and name == "L" and dev > 1e-9 and "nystroem" in str(e.gp_type).lower():
+                dev = float(np.max(np.abs(a @ a.T - b @ b.T)) / max(np.max(np.abs(b @ b.T)), 1e-300))
+            ok = ok and dev <= 1e-9
+        res.dev("glue_rel_dev", 0.0 if dev == float("inf") else dev)
+        if not ok:
+            res.oracle_fail(f"estimator attribute {name} is not what the documented helper returns for the estimator's own "
+                            "other attributes", p, detail={"attribute": name, "rel_dev": dev},
+                            signature=f"C18:glue:{est}:{name}")
+
+
 def run_case(ctx, res, p):
     return {"history": case_history, "subset": case_subset, "helper": case_helper,
-            "pipeline": case_pipeline}[p["op"]](ctx, res, p)
+            "pipeline": case_pipeline, "glue": case_glue}[p["op"]](ctx, res, p)
 
 
 def model_legal(ctx, cname, ops):
@@ -510,6 +605,12 @@ def run(ctx, res):
     for S in (["mu"], ["ls", "d"], ["nn_distances", "mu", "ls"]) if quick else (["mu"], ["ls"], ["d"], ["nn_distances"], ["mu", "ls"],
                                                                               ["ls", "d"], ["nn_distances", "mu", "ls"], list(CACHEABLES)):
         run_case(ctx, res, {"op": "subset", "config": "T-auto", "subset": S})
+    glue_plan = [("D", {}), ("D", {"landmarks": True}), ("D", {"landmarks": True, "gp_type": "sparse_nystroem", "rank": 3}),
+                 ("D", {"gp_type": "full_nystroem", "rank": 0.9, "ls_factor": 2.0}), ("T", {}), ("T", {"normalize": True}),
+                 ("T", {"normalize": True, "landmarks": True}), ("T", {"normalize": [4.0, 9.0, 6.0]}), ("T", {"landmarks": True, "gp_type": "fixed"}), ("M", {})]
+    for i, (est_, cfg_) in enumerate(glue_plan if quick else glue_plan * 3):
+        run_case(ctx, res, {"op": "glue", "est": est_, "cfg": cfg_, "dseed": int(rng.integers(1 << 30)),
+                            "dups": int(rng.choice([0, 0, 2]))})
     res.count("prefix_seconds", int(time.time() - t0))
     t0 = time.time()          # the time-boxed parts below get the whole budget
     # intermediates from the documented helper functions, incl. data with duplicate cells
